@@ -74,6 +74,7 @@ def cases(draw):
         "path": draw(gen.linear_paths(n)) if n > 1 else [],
         "removed": removed,
         "scales": [draw(rng_s) for _ in range(n)],
+        "share": draw(st.sampled_from([False, False, True])),
         "dtype": draw(st.sampled_from(["f", "c"])),  # (f4 / c8 are understood by run_case but not generated: no sound tolerance separates exponent rounding from float32 noise on networks this small)
         "signed": draw(st.booleans()),
         "api": api,
@@ -148,11 +149,31 @@ def run_case(spec, sub=None):
         for v in range(d):
             sel = tuple(v if lab == ix else slice(None) for lab in inputs[i])
             bases[i][sel] = bases[i][sel] * 10.0 ** (sv[v] - extra)
+    # the SAME array object handed over for several tensors (a network built
+    # from a few repeated tensors): tensor j takes the array - and the decade -
+    # of the first earlier tensor of equal shape
+    rep = list(range(n))
+    spec_scales = list(spec["scales"])
+    if spec.get("share"):
+        special = set()
+        if ps and removed:
+            special.add(i)
+        if nzero:
+            special = set(range(n))  # (planes were zeroed in place: keep all distinct)
+        for j in range(n):
+            for i0 in range(j):
+                if rep[i0] == i0 and i0 not in special and j not in special and bases[i0].shape == bases[j].shape and bases[j].ndim > 0:
+                    rep[j] = i0
+                    break
+        bases = [bases[rep[j]] for j in range(n)]
+        spec_scales = [spec_scales[rep[j]] for j in range(n)]
     absb = [np.abs(b) for b in bases]
     R = ref.dense_ref(inputs, output, sizes, bases)
     M = float(np.max(ref.dense_ref(inputs, output, sizes, absb)))
-    S = sum(spec["scales"]) + extra
+    S = sum(spec_scales) + extra
     cls = [f"api={spec['api']}", f"dtype={spec['dtype']}"]
+    if any(rep[j] != j for j in range(n)):
+        cls.append("shared_array_objects")
     if check_zero:
         cls.append("check_zero")
     if nzero:
@@ -161,18 +182,20 @@ def run_case(spec, sub=None):
         cls.append("slices_of_different_decades")
     if not np.any(R != 0):
         return Outcome([], False, cls + ["zero_result_skipped"])
-    scales = list(spec["scales"])
+    scales = list(spec_scales)
     if ps and removed:
         scales[i] += extra
     if single:
         # float32 / complex64 operands: decades limited to what the type holds
         # (a pairwise product of two operands must still fit: |decade| <= 15)
-        scales = [max(-15, min(15, s_)) for s_ in spec["scales"]]
+        scales = [max(-15, min(15, s_)) for s_ in spec_scales]
         S = sum(scales)
         arrays = [(b * 10.0 ** s_).astype(np.complex64 if base_kind == "c" else np.float32) for b, s_ in zip(bases, scales)]
         cls.append("single_precision")
     else:
         arrays = [b * 10.0 ** s for b, s in zip(bases, scales)]
+    # (shared tensors are one object, not equal copies)
+    arrays = [arrays[rep[j]] for j in range(n)]
     out_shape = tuple(sizes[ix] for ix in output)
     kw = {"strip_exponent": True}
     api = spec["api"]
